@@ -287,6 +287,36 @@ static void s7(int seed, int nthreads, int iters)
   for (auto& th : ts) th.join();
 }
 
+// S8: a SATURATED step of a shared sequence (its handle sits on the sequence's retired ring) is released in one thread
+// while another thread saturates the next step of the same sequence (which pushes onto that ring) and a third party
+// may destroy nothing: every access to the ring must be under the lock, including the one made when the released
+// expectation's handles are destroyed.
+static void s8(int seed, int nthreads, int iters)
+{
+  std::vector<std::thread> ts;
+  for (int t = 0; t < nthreads; ++t) {
+    ts.emplace_back([&, t] {
+      std::mt19937 r(static_cast<unsigned>(seed * 23 + t));
+      for (int i = 0; i < iters; ++i) {
+        trompeloeil::sequence seq;
+        M m;
+        auto e1 = NAMED_REQUIRE_CALL(m, f(1)).IN_SEQUENCE(seq).RETURN(0);
+        auto e2 = NAMED_REQUIRE_CALL(m, f(2)).IN_SEQUENCE(seq).RETURN(0);
+        auto e3 = NAMED_REQUIRE_CALL(m, f(3)).IN_SEQUENCE(seq).RETURN(0);
+        try { m.f(1); } catch (Reported const&) { ++fatal_reports; }      // e1 saturated: retired
+        unsigned d1 = r() % 40, d2 = r() % 40;
+        std::thread releaser([&e1, d1] { for (volatile unsigned k = 0; k < d1 * 20; ++k) {} e1.reset(); });
+        for (volatile unsigned k = 0; k < d2 * 20; ++k) {}
+        try { m.f(2); m.f(3); } catch (Reported const&) { ++fatal_reports; }
+        releaser.join();
+        if (!seq.is_completed()) ++fatal_reports;
+        if (r() % 2) { e2.reset(); e3.reset(); } else { e3.reset(); e2.reset(); }
+      }
+    });
+  }
+  for (auto& th : ts) th.join();
+}
+
 // F1: forced schedules at critical-section granularity.  Thread K holds the library's global lock (public API:
 // trompeloeil::get_lock(), recursive), lets thread R start its operation — which has to wait for the lock — performs its
 // own operation under the lock and releases it.  R's operation therefore takes effect after K's: the outcome must be the
@@ -405,6 +435,7 @@ int main(int argc, char** argv)
   else if (sc == "s5") s5(seed, nthreads, iters);
   else if (sc == "s6") s6(seed, nthreads, iters);
   else if (sc == "s7") s7(seed, nthreads, iters);
+  else if (sc == "s8") s8(seed, nthreads, iters);
   else if (sc == "f1") f1(seed, nthreads, iters / 2);
   else if (sc == "l1") l1(seed, nthreads, iters);
   else { std::printf("unknown scenario\n"); return 2; }
